@@ -219,15 +219,47 @@ Definition sum_len (ds : list dgram) : N := fold_right (fun d a => lenN d + a) 0
 (*  Threads.v model: one step = one loop iteration / one CloseWrite / wg.Done / Close        *)
 (* ======================================================================================== *)
 
+(* ---- how an endpoint is handed to the relay: tryCloseWrite + readWriteCloser.CloseWrite/Close dispatch ----
+   ep_kind 0: a connection that implements CloseWriter itself (net.TCPConn, the scripted fake)
+           1: a plain io.ReadWriteCloser without CloseWrite
+           2: iocopy.NewReadWriteCloser[WithCloseWrite](reader, writer, closeFunc[, closeWriteFunc]) — what
+              internal/client/{mapping/base.go, target_handler.go, socks5_tunnel.go} build around the tunnel stream *)
+Record wcfg := { ep_kind : N; ep_cwfunc : bool;      (* closeWriteFunc != nil *)
+                 ep_writer_cw : bool;               (* the wrapped Writer implements CloseWriter *)
+                 ep_closefunc : bool }.             (* closeFunc != nil *)
+Inductive hc_action :=
+| HcFunc      (* closeWriteFunc() *)
+| HcWriter    (* the connection's / wrapped writer's own CloseWrite() *)
+| HcNoop      (* nothing: "let the final Close handle it" *)
+| HcClose.    (* a FULL close of the endpoint — what a half-close must never be *)
+(* tryCloseWrite(conn):  *net.TCPConn / CloseWriter -> conn.CloseWrite(); otherwise nothing.
+   readWriteCloser.CloseWrite: closeWriteFunc != nil -> closeWriteFunc(); Writer.(CloseWriter) -> its
+   CloseWrite(); otherwise return nil. *)
+Definition close_write_dispatch (c : wcfg) : hc_action :=
+  if ep_kind c =? 0 then HcWriter
+  else if ep_kind c =? 1 then HcNoop
+  else if ep_cwfunc c then HcFunc
+  else if ep_writer_cw c then HcWriter
+  else HcNoop.
+(* conn.Close(): readWriteCloser.Close calls closeFunc only when it is set *)
+Definition close_reaches_endpoint (c : wcfg) : bool := negb (ep_kind c =? 2) || ep_closefunc c.
+Definition cfg_direct : wcfg := {| ep_kind := 0; ep_cwfunc := false; ep_writer_cw := false; ep_closefunc := true |}.
+
 (* everything direction d (0: A->B, 1: B->A) touches: the source's read side, the destination's write side *)
 Record dirst := { d_rd : trd;               (* source endpoint: what it will still hand to Read *)
                   d_out : list byte;        (* destination endpoint: bytes accepted by Write *)
                   d_wlimit : option N;      (* destination accepts this many bytes in total, then faults *)
                   d_wshort : bool;          (* the fault is a short write (nw < nr, nil) instead of an error *)
-                  d_cw : N;                 (* CloseWrite calls on the destination *)
+                  d_cfg : wcfg;             (* how the destination endpoint is wrapped *)
+                  d_cw : N;                 (* CloseWrite calls reaching the destination endpoint / its writer *)
+                  d_cwf : N;                (* closeWriteFunc calls of the destination's wrapper *)
                   d_bytes : N;              (* Result.BytesSent / BytesReceived *)
                   d_err : N }.              (* Result.SendError / ReceiveError class: 0 nil, 1 read error,
                                                2 write error, 4 io.ErrShortWrite, 5 endpoint already closed *)
+
+Definition d_with (D : dirst) (rd : trd) (out : list byte) (cw cwf bytes err : N) : dirst :=
+  {| d_rd := rd; d_out := out; d_wlimit := d_wlimit D; d_wshort := d_wshort D; d_cfg := d_cfg D;
+     d_cw := cw; d_cwf := cwf; d_bytes := bytes; d_err := err |}.
 
 Record tsh := { sh_d0 : dirst; sh_d1 : dirst; sh_wg : N;
                 sh_closed_a : bool; sh_closed_b : bool; sh_ncl_a : N; sh_ncl_b : N;
@@ -246,11 +278,7 @@ Section Tcp.
   (* one iteration of the copy loop of direction D; cs / cd: source / destination already Close()d *)
   Definition loop_iter (cs cd : bool) (total : N) (D : dirst) : tpc * dirst * N :=
     let '(got, e, t') := if cs then ([], Some 5, d_rd D) else tread CopyBuf (d_rd D) in
-    let D1 := {| d_rd := t'; d_out := d_out D; d_wlimit := d_wlimit D; d_wshort := d_wshort D;
-                 d_cw := d_cw D; d_bytes := d_bytes D; d_err := d_err D |} in
-    let upd (D : dirst) out bytes err :=
-      {| d_rd := d_rd D; d_out := out; d_wlimit := d_wlimit D; d_wshort := d_wshort D;
-         d_cw := d_cw D; d_bytes := bytes; d_err := err |} in
+    let upd out bytes err := d_with D t' out (d_cw D) (d_cwf D) bytes err in
     (* if nr > 0 { nw, writeErr := dst.Write(buf[:nr]) ... } *)
     let '(nw, werr, out', ioac) :=
       if is_nil got then (0, 0, d_out D, 0)
@@ -265,11 +293,11 @@ Section Tcp.
            end in
     let total' := total + nw in
     let ioac' := ioac + (if cs then 1 else 0) in
-    if negb (is_nil got) && negb (werr =? 0) then (PHalf, upd D1 out' (d_bytes D) werr, ioac')
-    else if negb (is_nil got) && negb (nw =? lenN got) then (PHalf, upd D1 out' (d_bytes D) 4, ioac')
+    if negb (is_nil got) && negb (werr =? 0) then (PHalf, upd out' (d_bytes D) werr, ioac')
+    else if negb (is_nil got) && negb (nw =? lenN got) then (PHalf, upd out' (d_bytes D) 4, ioac')
     else match e with
-         | Some k => (PHalf, upd D1 out' total' (if k =? 0 then d_err D else if k =? 5 then 5 else 1), ioac')
-         | None => (PLoop total', upd D1 out' (d_bytes D) (d_err D), ioac')
+         | Some k => (PHalf, upd out' total' (if k =? 0 then d_err D else if k =? 5 then 5 else 1), ioac')
+         | None => (PLoop total', upd out' (d_bytes D) (d_err D), ioac')
          end.
 
   Definition set_d (d : nat) (sh : tsh) (D : dirst) (wg ioac : N) : tsh :=
@@ -278,26 +306,48 @@ Section Tcp.
        sh_ncl_a := sh_ncl_a sh; sh_ncl_b := sh_ncl_b sh;
        sh_io_after_close := sh_io_after_close sh + ioac; sh_ret := sh_ret sh |}.
 
+  (* a full Close of direction d's DESTINATION endpoint (d = 0: B, else A) *)
+  Definition close_dst (d : nat) (sh : tsh) : tsh :=
+    {| sh_d0 := sh_d0 sh; sh_d1 := sh_d1 sh; sh_wg := sh_wg sh;
+       sh_closed_a := if (d =? 0)%nat then sh_closed_a sh else true;
+       sh_closed_b := if (d =? 0)%nat then true else sh_closed_b sh;
+       sh_ncl_a := if (d =? 0)%nat then sh_ncl_a sh else sh_ncl_a sh + 1;
+       sh_ncl_b := if (d =? 0)%nat then sh_ncl_b sh + 1 else sh_ncl_b sh;
+       sh_io_after_close := sh_io_after_close sh; sh_ret := sh_ret sh |}.
+
+  (* tryCloseWrite(dst), through whatever wraps the destination *)
+  Definition half_close_step (d : nat) (D : dirst) (sh : tsh) : tsh :=
+    match close_write_dispatch (d_cfg D) with
+    | HcFunc => set_d d sh (d_with D (d_rd D) (d_out D) (d_cw D) (d_cwf D + 1) (d_bytes D) (d_err D)) (sh_wg sh) 0
+    | HcWriter => set_d d sh (d_with D (d_rd D) (d_out D) (d_cw D + 1) (d_cwf D) (d_bytes D) (d_err D)) (sh_wg sh) 0
+    | HcNoop => set_d d sh D (sh_wg sh) 0
+    | HcClose => close_dst d (set_d d sh D (sh_wg sh) 0)
+    end.
+
   Definition copier_step (d : nat) (pc : tpc) (sh : tsh) : tpc * tsh :=
     let D := if (d =? 0)%nat then sh_d0 sh else sh_d1 sh in
     let cs := if (d =? 0)%nat then sh_closed_a sh else sh_closed_b sh in
     let cd := if (d =? 0)%nat then sh_closed_b sh else sh_closed_a sh in
     match pc with
     | PLoop total => let '(pc', D', ioac) := loop_iter cs cd total D in (pc', set_d d sh D' (sh_wg sh) ioac)
-    | PHalf => (PWg, set_d d sh {| d_rd := d_rd D; d_out := d_out D; d_wlimit := d_wlimit D; d_wshort := d_wshort D;
-                                   d_cw := d_cw D + 1; d_bytes := d_bytes D; d_err := d_err D |} (sh_wg sh) 0)
+    | PHalf => (PWg, half_close_step d D sh)
     | PWg => (PDone, set_d d sh D (sh_wg sh - 1) 0)
     | other => (other, sh)
     end.
 
+  (* connA.Close(); connB.Close(): A is the destination of direction 1, B of direction 0 *)
   Definition main_step (pc : tpc) (sh : tsh) : tpc * tsh :=
     let mk ca cb na nb r :=
       {| sh_d0 := sh_d0 sh; sh_d1 := sh_d1 sh; sh_wg := sh_wg sh; sh_closed_a := ca; sh_closed_b := cb;
          sh_ncl_a := na; sh_ncl_b := nb; sh_io_after_close := sh_io_after_close sh; sh_ret := r |} in
     match pc with
     | MWait => if sh_wg sh =? 0 then (MCloseA, sh) else (MWait, sh)
-    | MCloseA => (MCloseB, mk true (sh_closed_b sh) (sh_ncl_a sh + 1) (sh_ncl_b sh) false)
-    | MCloseB => (MRet, mk (sh_closed_a sh) true (sh_ncl_a sh) (sh_ncl_b sh + 1) false)
+    | MCloseA => if close_reaches_endpoint (d_cfg (sh_d1 sh))
+                 then (MCloseB, mk true (sh_closed_b sh) (sh_ncl_a sh + 1) (sh_ncl_b sh) false)
+                 else (MCloseB, sh)
+    | MCloseB => if close_reaches_endpoint (d_cfg (sh_d0 sh))
+                 then (MRet, mk (sh_closed_a sh) true (sh_ncl_a sh) (sh_ncl_b sh + 1) false)
+                 else (MRet, sh)
     | MRet => (PDone, mk (sh_closed_a sh) (sh_closed_b sh) (sh_ncl_a sh) (sh_ncl_b sh) true)
     | other => (other, sh)
     end.
@@ -311,9 +361,12 @@ Section Tcp.
     end.
 End Tcp.
 
-Definition dir0 (s : list byte) (cuts : list nat) (e : N) (wd : bool) (wl : option N) (ws : bool) : dirst :=
+(* dirw: the direction whose source sends s and whose DESTINATION is wrapped as cfg *)
+Definition dirw (s : list byte) (cuts : list nat) (e : N) (wd : bool) (wl : option N) (ws : bool) (cfg : wcfg) : dirst :=
   {| d_rd := {| t_rd := {| rest := s; cuts := cuts; endk := e |}; t_wd := wd |}; d_out := [];
-     d_wlimit := wl; d_wshort := ws; d_cw := 0; d_bytes := 0; d_err := 0 |}.
+     d_wlimit := wl; d_wshort := ws; d_cfg := cfg; d_cw := 0; d_cwf := 0; d_bytes := 0; d_err := 0 |}.
+Definition dir0 (s : list byte) (cuts : list nat) (e : N) (wd : bool) (wl : option N) (ws : bool) : dirst :=
+  dirw s cuts e wd wl ws cfg_direct.
 Definition tcp_init (D0 D1 : dirst) : st tsh (nat * tpc) :=
   ({| sh_d0 := D0; sh_d1 := D1; sh_wg := 2; sh_closed_a := false; sh_closed_b := false;
       sh_ncl_a := 0; sh_ncl_b := 0; sh_io_after_close := 0; sh_ret := false |},
